@@ -94,6 +94,13 @@ fn run_case(rep: &mut Report, args: &Args, cs: u64, sink_kind: &str) {
         }
     };
     let client = Arc::new(client);
+    // how "datagrams written so far" is read at the moment a flush returns
+    let (flush_mark, rx_probe): (u8, Option<crossbeam_channel::Receiver<Vec<u8>>>) = match &obs {
+        Obs::Spy(rx) => (1, Some(rx.clone())),
+        Obs::Udp { .. } => (2, None),
+        _ => (0, None),
+    };
+    let udp_base = if let Obs::Udp { fd_marker, .. } = &obs { *fd_marker } else { 0 };
     let barrier = Arc::new(Barrier::new(threads));
     let mut joins = Vec::new();
     for t in 0..threads {
@@ -101,8 +108,10 @@ fn run_case(rep: &mut Report, args: &Args, cs: u64, sink_kind: &str) {
         let barrier = barrier.clone();
         let mut r = rng.fork();
         let does_flush = t < flushers;
+        let rx_probe = rx_probe.clone();
         joins.push(std::thread::spawn(move || {
             let mut sent: Vec<Sent> = Vec::with_capacity(per_thread);
+            let mut flush_points: Vec<(usize, u64)> = Vec::new();
             let mut panicked: Option<String> = None;
             barrier.wait();
             for n in 0..per_thread {
@@ -127,21 +136,35 @@ fn run_case(rep: &mut Report, args: &Args, cs: u64, sink_kind: &str) {
                     }
                 }
                 if does_flush && r.chance(1, 50) {
-                    let _ = client.flush();
+                    if client.flush().is_ok() {
+                        // everything this thread had acknowledged so far must be on the wire NOW: remember how many
+                        // datagrams existed when flush returned (spy: channel length, nobody drains during the run;
+                        // udp: interposer log length)
+                        let mark = match flush_mark {
+                            1 => rx_probe.as_ref().map(|p| p.len() as u64),
+                            2 => Some(interpose::mark()),
+                            _ => None,
+                        };
+                        if let (Some(m), Some(last)) = (mark, sent.iter().rev().find(|x| x.ok).map(|x| x.seq)) {
+                            flush_points.push((last, m));
+                        }
+                    }
                 }
             }
-            (sent, panicked)
+            (sent, panicked, flush_points)
         }));
     }
     let mut per_thread_sent: Vec<Vec<Sent>> = Vec::new();
+    let mut per_thread_flush: Vec<Vec<(usize, u64)>> = Vec::new();
     let mut panic_msg = None;
     for j in joins {
         match j.join() {
-            Ok((s, p)) => {
+            Ok((s, p, fp)) => {
                 if p.is_some() {
                     panic_msg = p;
                 }
                 per_thread_sent.push(s);
+                per_thread_flush.push(fp);
             }
             Err(_) => panic_msg = Some("thread died".into()),
         }
@@ -209,6 +232,7 @@ fn run_case(rep: &mut Report, args: &Args, cs: u64, sink_kind: &str) {
         }
     }
     let mut seen: HashMap<&str, usize> = HashMap::new();
+    let mut dgram_of: HashMap<(usize, usize), usize> = HashMap::new(); // (thread, seq) -> index of its datagram in the stream
     let mut last_seq: Vec<Option<usize>> = vec![None; threads];
     let mut stream_tids: Vec<usize> = Vec::new();
     let mut mixed = 0u64;
@@ -257,6 +281,7 @@ fn run_case(rep: &mut Report, args: &Args, cs: u64, sink_kind: &str) {
                         }
                         last_seq[*t] = Some(*seq);
                     }
+                    dgram_of.insert((*t, *seq), di);
                     tids_here.push(*t);
                     stream_tids.push(*t);
                 }
@@ -272,6 +297,28 @@ fn run_case(rep: &mut Report, args: &Args, cs: u64, sink_kind: &str) {
         fail(rep, "F2", "acknowledged-metric-lost", format!("{} metrics were acknowledged with Ok but only {} appear in the datagram stream (e.g. {:?})", acked, seen.len(), missing), Json::Null);
         return;
     }
+    // C06 under concurrency: when flush() returned Ok to a thread, every metric that thread had acknowledged was already
+    // in one of the datagrams that existed at that moment
+    let mut flush_checks = 0u64;
+    if flush_mark == 1 || flush_mark == 2 {
+        // udp: the stream is the subsequence of accepted sendto records since `udp_base`; map record index -> stream index
+        for (t, fps) in per_thread_flush.iter().enumerate() {
+            for (last_seq_acked, mark) in fps {
+                // all acked metrics with seq <= last_seq_acked of thread t
+                for s in per_thread_sent[t].iter().filter(|s| s.ok && s.seq <= *last_seq_acked) {
+                    if let Some(di) = dgram_of.get(&(t, s.seq)) {
+                        let limit = if flush_mark == 1 { *mark as usize } else { udp_stream_index_limit(udp_base, *mark) };
+                        flush_checks += 1;
+                        if *di >= limit {
+                            fail(rep, "F2", "flush-left-data", format!("thread {}: flush() returned Ok when {} datagrams had been written, but its acknowledged metric s{} only left in datagram #{}", t, limit, s.seq, di), Json::Null);
+                            return;
+                        }
+                    }
+                }
+            }
+        }
+    }
+    rep.obs("flush_covers_own_metrics_checks", flush_checks);
     let switches = stream_tids.windows(2).filter(|w| w[0] != w[1]).count() as u64;
     rep.obs("datagrams_observed", stream.len() as u64);
     rep.obs("datagrams_mixing_lines_of_several_threads", mixed);
@@ -295,6 +342,13 @@ fn run_case(rep: &mut Report, args: &Args, cs: u64, sink_kind: &str) {
         let first: Vec<Json> = stream.iter().take(3).map(|d| Json::Str(clip_bytes(d, 160))).collect();
         rep.sample(|| jobj! {"config" => cfg.clone(), "datagrams" => stream.len(), "datagrams_mixing_threads" => mixed, "thread_switches" => switches, "first_datagrams" => Json::Arr(first)});
     }
+}
+
+/// Number of ACCEPTED sendto records in the interposer log between `base` and `mark` (= how many datagrams of the
+/// stream existed when the log had `mark` records).
+fn udp_stream_index_limit(base: u64, mark: u64) -> usize {
+    let g = interpose::STATE.lock().unwrap_or_else(|e| e.into_inner());
+    g.log[base as usize..(mark as usize).min(g.log.len())].iter().filter(|r| r.result >= 0).count()
 }
 
 fn main() {
